@@ -1,10 +1,24 @@
 package drive
 
 import (
+	"context"
 	"fmt"
+	"net/url"
 	"regexp"
 	"strings"
+
+	"github.com/ory/fosite"
 )
+
+// secureFact is the library's own verdict on the transport of a redirect URI (a parameter of the model: the
+// model decides from this bit, the library from the string)
+func secureFact(uri string) string {
+	u, err := url.Parse(uri)
+	if err != nil {
+		return "0"
+	}
+	return b01(fosite.IsRedirectURISecure(context.Background(), u))
+}
 
 // ---- generator bookkeeping (what the "attacker/user population" knows) ----
 
@@ -60,6 +74,7 @@ type gen struct {
 	steps   int
 	bias    string
 	cfg     map[string]string
+	cfgPAR  bool // PAR enforced in this history
 }
 
 var (
@@ -92,7 +107,7 @@ var faultKinds = []string{"generic", "generic", "serialization", "not_found"}
 
 func isEndpointOp(line string) bool {
 	switch line[:strings.IndexByte(line+"\t", '\t')] {
-	case "redeem", "refresh", "devicePoll", "cc", "password", "authorize", "revoke", "parPush", "authorizePar", "deviceAuthorize", "introspect", "introspectHTTP":
+	case "redeem", "refresh", "devicePoll", "cc", "password", "authorize", "revoke", "parPush", "authorizePar", "deviceAuthorize", "introspect", "introspectHTTP", "authorizeRU":
 		return true
 	}
 	return false
@@ -106,14 +121,22 @@ func isEndpointOp(line string) bool {
 //   - one or two random faults, followed by a fault-free retry of the same request;
 //   - no fault.
 func (g *gen) faultyOp(line string) string {
-	do := func(l string) string { o := g.e.Do(l); g.steps++; return o }
+	do := func(l string) string {
+		o := g.e.Do(l)
+		if !strings.HasPrefix(l, "fault\t") {
+			g.steps++ // fault plans do not use up the history's budget
+		}
+		return o
+	}
 	if !isEndpointOp(line) {
 		return do(line)
 	}
 	r := g.r
 	switch x := r.Intn(10); {
 	case x < 3:
-		kind := faultKinds[r.Intn(len(faultKinds))]
+		// (never not_found here: an injected one cannot be told from a genuine lookup miss in the call log,
+		// and the sweep must stop as soon as the fault index lies beyond the request's last storage call)
+		kind := []string{"generic", "generic", "serialization"}[r.Intn(3)]
 		pair := r.Intn(3) == 0
 		for k := 0; k < 14; k++ {
 			plan := fmt.Sprintf(",%d:%s", k, kind)
@@ -174,11 +197,15 @@ func (g *gen) setup() {
 	rtLife := []int64{30 * 24 * 3600 * sec, 120 * sec, -1}[r.Intn(3)]
 	pk := r.Intn(4)
 	g.cfg = map[string]string{"pkce": b01(pk == 1), "pkcePublic": b01(pk == 2), "plain": b01(r.Intn(3) == 0)}
+	g.cfgPAR = r.Intn(12) == 0 && g.bias != "C16"
+	if g.bias == "C17" && r.Intn(3) == 0 {
+		g.cfgPAR = true
+	}
 	deviceLife := []int64{600 * sec, 90 * sec}[r.Intn(2)]
 	parLife := []int64{300 * sec, 45 * sec}[r.Intn(2)]
 	g.op(fmt.Sprintf("cfg\trefreshScopes=%s\tscope=%s\taud=%s\tcodeLife=%d\tatLife=%d\trtLife=%d\tpkce=%s\tpkcePublic=%s\tplain=%s\tnoRtIntrospect=%s\tdeviceLife=%d\tparLife=%d\tenforcePAR=%s\tdevMark=%s",
 		encListS(refreshScopes), scopeStrat, audStrat, codeLife, atLife, rtLife, g.cfg["pkce"], g.cfg["pkcePublic"], g.cfg["plain"], b01(r.Intn(5) == 0),
-		deviceLife, parLife, b01(r.Intn(12) == 0 && g.bias != "C16"), b01(r.Intn(2) == 0 || (g.bias == "C16" && r.Intn(3) != 0)))+
+		deviceLife, parLife, b01(g.cfgPAR), b01(r.Intn(2) == 0 || (g.bias == "C16" && r.Intn(3) != 0)))+
 		"\ttx="+b01(r.Intn(4) == 0 || (g.bias == "C18" && r.Intn(3) != 0)))
 	allScopes := []string{"offline", "openid", "a", "b.c", "rt", "offline_access"}
 	if scopeStrat == "wildcard" {
@@ -212,6 +239,10 @@ func (g *gen) setup() {
 		c.redirects = []string{fmt.Sprintf("https://%s.example/cb", c.id)}
 		if r.Bool() {
 			c.redirects = append(c.redirects, fmt.Sprintf("https://%s.example/cb2", c.id))
+		}
+		if r.Intn(4) == 0 || ((g.bias == "C11") && r.Bool()) {
+			// plain-http registrations: one on a public host (insecure), one on loopback (fine)
+			c.redirects = append(c.redirects, fmt.Sprintf("http://%s.example/cb", c.id), "http://127.0.0.1:8080/cb")
 		}
 		g.clients = append(g.clients, c)
 		g.emitClient(c)
@@ -304,8 +335,20 @@ func (g *gen) authorize() {
 	if len(rts) > 1 || r.Intn(3) == 0 {
 		nonce = "nonce-nonce-nonce"
 	}
-	line := fmt.Sprintf("authorize\t%s\t%s\t%s\t1\t%s\t%s\t%s\t%s\t%s\t%s\t%s\t%s\t%s", c.id, encListS(rts), redirect,
+	effective := redirect
+	if effective == "" {
+		effective = c.redirects[0]
+	}
+	line := fmt.Sprintf("authorize\t%s\t%s\t%s\t%s\t%s\t%s\t%s\t%s\t%s\t%s\t%s\t%s\t%s", c.id, encListS(rts), redirect, secureFact(effective),
 		"state-state-state", nonce, encListS(scopes), encListS(aud), encListS(gs), encListS(ga), sub, challenge, method)
+	hasOpenidReq := false
+	for _, sc := range scopes {
+		hasOpenidReq = hasOpenidReq || sc == "openid"
+	}
+	if !hasOpenidReq && (r.Intn(8) == 0 || (g.cfgPAR && r.Intn(2) == 0)) {
+		// the same request with a request_uri that is not a pushed one (and, without openid, no request object either)
+		line = "authorizeRU" + line[len("authorize"):] + "\t" + []string{"x", "https://client.example/request.jwt", "urn:other:thing"}[r.Intn(3)]
+	}
 	obs := g.op(line)
 	if m := reAuthz.FindStringSubmatch(obs); m != nil {
 		gr := &gGrant{client: c.id, redirect: redirect, verifier: verifier, method: method, scopes: gs, hasOpenID: hasOpenid}
@@ -691,7 +734,7 @@ func (g *gen) parStep() {
 	}
 	if len(open) == 0 || r.Intn(3) == 0 {
 		c := g.clients[r.Intn(len(g.clients))]
-		rts := [][]string{{"code"}, {"code"}, {"code", "token"}, {"code", "id_token", "token"}}[r.Intn(4)]
+		rts := [][]string{{"code"}, {"code"}, {"code", "token"}, {"code", "id_token", "token"}, {"token"}, {"code", "id_token"}}[r.Intn(6)]
 		scopes := g.reqScopes(c)
 		aud := pickN(r, c.aud, 50)
 		redirect := c.redirects[r.Intn(len(c.redirects))]
@@ -701,8 +744,8 @@ func (g *gen) parStep() {
 			challenge, method = "H("+verifier+")", "S256"
 		}
 		nonce := "nonce-nonce-nonce"
-		obs := g.op(fmt.Sprintf("parPush\t%s\t%s\t%s\t%s\t%s\t%s\t1\t%s\t%s\t%s\t%s\t%s\t%s", c.id, b01(r.Intn(8) != 0), b01(r.Intn(12) == 0),
-			b01(!c.public && r.Intn(3) == 0), encListS(rts), redirect, "pushed-state-state", nonce, encListS(scopes), encListS(aud), challenge, method))
+		obs := g.op(fmt.Sprintf("parPush\t%s\t%s\t%s\t%s\t%s\t%s\t%s\t%s\t%s\t%s\t%s\t%s\t%s", c.id, b01(r.Intn(8) != 0), b01(r.Intn(12) == 0),
+			b01(!c.public && r.Intn(3) == 0), encListS(rts), redirect, secureFact(redirect), "pushed-state-state", nonce, encListS(scopes), encListS(aud), challenge, method))
 		if m := rePar.FindStringSubmatch(obs); m != nil {
 			g.pars = append(g.pars, &gPar{client: c.id, name: m[1], gs: scopes, pkce: verifier, method: method, redir: redirect})
 		}
@@ -758,6 +801,9 @@ func (g *gen) History(n int) {
 		}
 		if g.bias == "C17" && r.Intn(3) == 0 {
 			x = 112 // PAR flows dominate
+		}
+		if g.bias == "C18" && r.Intn(5) == 0 {
+			x = []int{106, 112, 100}[r.Intn(3)] // device, PAR and direct grants get their share of faults
 		}
 		switch {
 		case x >= 100 && x < 106:
